@@ -68,7 +68,7 @@ class BayesianBridge(CallableModel):
                     if isinstance(self.slab, AbstractParameter)
                     else self.slab
                 )
-                global_local /= (1.0 + (global_local / slab) ** 2).sqrt()
+                global_local = global_local / (1.0 + (global_local / slab) ** 2).sqrt()
             return torch.distributions.Normal(
                 torch.zeros_like(global_local),
                 global_local,
